@@ -94,6 +94,8 @@ pub struct Report {
     pub states: u64,
     pub transitions: u64,
     pub extra: Vec<(String, J)>,
+    /// per comparison site: the largest observed error as a fraction of the tolerance applied (vacuity / looseness evidence)
+    pub margins: BTreeMap<String, f64>,
 }
 
 impl Report {
@@ -104,6 +106,13 @@ impl Report {
     pub fn nontrivial(&mut self) { self.nontrivial += 1; }
     #[inline]
     pub fn h(&mut self, k: &str) { *self.hist.entry(k.to_string()).or_insert(0) += 1; }
+    /// record how much of the tolerance `tol` the observed error `err` used at comparison site `site` (keeps the maximum)
+    #[inline]
+    pub fn margin(&mut self, site: &str, err: f64, tol: f64) {
+        let q = if tol > 0.0 { err / tol } else if err == 0.0 { 0.0 } else { f64::INFINITY };
+        if !q.is_finite() && !(q > 0.0) { return; }
+        match self.margins.get_mut(site) { Some(m) => { if q > *m { *m = q; } } None => { self.margins.insert(site.to_string(), q); } }
+    }
     pub fn hn(&mut self, k: &str, n: u64) { *self.hist.entry(k.to_string()).or_insert(0) += n; }
     /// keep the samples with the smallest ordinal (deterministic irrespective of sharding)
     pub fn sample(&mut self, ord: u64, f: impl FnOnce() -> J) {
@@ -162,6 +171,7 @@ impl Report {
         for (_, v) in o.viols { self.insert_viol(v); }
         for (k, v) in o.known { let e = self.known.entry(k).or_insert_with(|| v.clone()); if v.key < e.key { *e = v; } }
         for (k, v) in o.extra { self.set(&k, v); }
+        for (k, v) in o.margins { let e = self.margins.entry(k).or_insert(0.0); if v > *e { *e = v; } }
     }
 
     /// Write the evidence part and the replay files; print a summary line.
@@ -198,6 +208,7 @@ impl Report {
             cov.push(("traces_validated_against_impl".into(), J::UInt(self.transitions)));
         }
         cov.push(("outcome_histogram".into(), J::from(self.hist.clone())));
+        if !self.margins.is_empty() { cov.push(("tolerance_usage_max".into(), J::Obj(self.margins.iter().map(|(k, v)| (k.clone(), J::from(format!("{:.3e}", v)))).collect()))); }
         for (k, v) in &self.extra { cov.push((k.clone(), v.clone())); }
         let ev = obj! {
             "property_id" => cfg.prop.as_str(),
